@@ -58,7 +58,11 @@ def prepare_unit(u, base):
 
 
 def native_unit_text(u, under):
-    o = [xtract.render_unit(u.cls, u.decl, u.funcs, u.spec, prelude='native.h', defines=u.defines)]
+    cbs = sorted({n for f in u.funcs for (t, n, k) in f.args if k == 'funcptr'})
+    pre = '#include "native.h"\n' + ''.join(
+        'static Sc __CPROVER_uninterpreted_%s(Sc a) { return expl(-1.0L / (1.0L + a * a)) + 0.5L; } /* native stand-in for the caller-supplied callback (rule K) */\n' % n
+        for n in cbs)
+    o = [pre + xtract.render_unit(u.cls, u.decl, u.funcs, u.spec, prelude='native.h', defines=u.defines)]
     o.append('#undef REQ\n#undef ENS_EQ\n#undef ENS\n#undef FRAME')
     o.append('#define REQ(e) if (!(e)) return 0;\n#define ENS_EQ(e) *want = (e);\n#define ENS(e)\n#define FRAME(...)')
     for f in under:
@@ -133,6 +137,17 @@ int main() {
 '''
 
 
+CB_EXTRA = 'static long double vf_cb(long double a) { return expl(-1.0L / (1.0L + a * a)) + 0.5L; }\n'
+
+
+def replay_args(f, args):
+    """native-search args -> replay args (callback parameters become the C++ twin of the native stand-in)"""
+    out = []
+    for (t, n, k), a in zip(f.args, args):
+        out.append({'callback': 'vf_cb'} if k == 'funcptr' else a)
+    return out
+
+
 def replay_real(cls, src, method, members, args, workdir, extra='', header='masa_internal.h'):
     """evaluate the REAL C++ member function (from /repo's working tree) at a concrete input -> long double as str"""
     sets = '\n'.join('  o.set_var("%s", %sL);' % (k, _ld(v)) for k, v in members.items())
@@ -161,6 +176,8 @@ def _ld(v):
 
 
 def _arg(a):
+    if isinstance(a, dict):
+        return a['callback']
     if isinstance(a, int):
         return str(a)
     return _ld(a) + 'L'
@@ -192,6 +209,8 @@ def run_numeric(prop, units, tier, seed, trusted_extra=(), design_ref='', lemmas
             prepare_unit(u, base)
             have = contracts_in_spec(os.path.join(CONTRACTS, u.spec))
             sel = [f for f in u.funcs if (u.select is None or re.search(u.select, f.name))]
+            if os.environ.get('VF_ONLY'):
+                sel = [f for f in sel if re.search(os.environ['VF_ONLY'], f.cname)]
             u.under = [f for f in sel if f.cname in have]
             for f in sel:
                 if f.cname not in have:
@@ -232,9 +251,18 @@ def run_numeric(prop, units, tier, seed, trusted_extra=(), design_ref='', lemmas
     for (u, f, hf), r in results:
         solver_s += r.seconds
         checker_cmd = checker_cmd or r.cmd
-        per_fn.append({'function': f.cname, 'status': r.status, 'backend': r.backend, 'seconds': round(r.seconds, 2),
+        per_fn.append({'function': f.cname, 'status': r.status, 'backend': r.backend, 'seconds': round(r.seconds, 2), 'canary': r.canary,
                        'obligations': len(r.obligations), 'source_sha256': f.sha})
         key = f.cname + '.contract'
+        if r.status == 'discharged' and r.canary != 'reachable':
+            # vacuity guard could not be decided by the solvers: fall back to concrete reachability of the contract's
+            # precondition in the native twin (weaker: shows requires is satisfiable over the reals, not the axioms' consistency)
+            nr = native_search(u, u.under, f, seed, 2000)
+            if nr.get('found') or nr.get('evaluated', 0) > 0:
+                per_fn[-1]['canary'] = 'native-reachable'
+            else:
+                rep.undecide('%s: vacuity canary undecided and no admissible input found natively (%s)' % (f.cname, nr.get('error', '')))
+                continue
         if r.status == 'discharged':
             n_obl += len(r.obligations)
             n_dis += len(r.obligations)
@@ -247,8 +275,9 @@ def run_numeric(prop, units, tier, seed, trusted_extra=(), design_ref='', lemmas
                    'failed_obligations': r.failed, 'detail': r.detail, 'verifier_output': r.log[-8000:], 'checker_cmd': r.cmd,
                    'native_search': found}
         if found.get('found'):
-            real, rlog = replay_real(u.cls, u.src, f.name, found['members'], [a if isinstance(a, int) else a for a in found['args']],
-                                     os.path.join(u.dir, 'replay_' + f.cname), header=u.header)
+            real, rlog = replay_real(u.cls, u.src, f.name, found['members'], replay_args(f, found['args']),
+                                     os.path.join(u.dir, 'replay_' + f.cname), header=u.header, extra=CB_EXTRA)
+            payload['replay_args'] = replay_args(f, found['args'])
             payload['real_value'] = real
             payload['spec_value'] = found['want']
             payload['replay_log'] = rlog[-1500:]
@@ -297,7 +326,7 @@ def replay_file(path):
         print((p.get('verifier_output') or '')[-3000:])
         return EXIT_VIOLATION
     wd = scratch('replay')
-    real, log = replay_real(p['class'], p['source'], p['method'], ns['members'], ns['args'], wd)
+    real, log = replay_real(p['class'], p['source'], p['method'], ns['members'], p.get('replay_args', ns['args']), wd, extra=CB_EXTRA)
     print('function %s::%s  real=%s  spec=%s' % (p['class'], p['method'], real, ns['want']))
     if real is None:
         print(log)
